@@ -168,6 +168,41 @@ type regWorld struct {
 	out     []regOut // written during the current step
 	panicky string
 	td      *tdExt // composed teardown world (TestTeardown) or nil
+	late    map[int]bool // peers whose discovery reply has not arrived yet (op "discover p")
+	broken  map[int]bool // peers whose connection cannot be written to (set up with a nil writer): every send to them fails
+}
+
+// regHeader parses "peers N [late:a,b] [broken:c]"
+func regHeader(op string) (np int, late, broken map[int]bool) {
+	np, late, broken = 2, map[int]bool{}, map[int]bool{}
+	f := strings.Fields(op)
+	if len(f) >= 2 && f[0] == "peers" {
+		np, _ = strconv.Atoi(f[1])
+		for _, t := range f[2:] {
+			k := strings.Index(t, ":")
+			if k < 0 {
+				continue
+			}
+			for _, x := range strings.Split(t[k+1:], ",") {
+				n, _ := strconv.Atoi(x)
+				switch t[:k] {
+				case "late":
+					late[n] = true
+				case "broken":
+					broken[n] = true
+				}
+			}
+		}
+	}
+	return
+}
+
+func (w *regWorld) discover(p int) {
+	cl := model.CmdClassifierTypeReply
+	w.inject(p, model.DatagramType{Header: model.HeaderType{AddressSource: h.FA(regDev(p), []uint{0}, 0), AddressDestination: h.FA("HEMS", []uint{0}, 0),
+		MsgCounter: util.Ptr(model.MsgCounterType(1)), MsgCounterReference: util.Ptr(model.MsgCounterType(1)), CmdClassifier: &cl},
+		Payload: model.PayloadType{Cmd: []model.CmdType{{NodeManagementDetailedDiscoveryData: regDiscovery(regDev(p), nil, regRemoteEnts)}}}})
+	w.late[p] = false
 }
 
 func regDev(p int) string { return fmt.Sprintf("dev%d", p) }
@@ -211,11 +246,17 @@ func regDiscovery(dev string, state *model.NetworkManagementStateChangeType, ent
 // newRegWorld builds a real DeviceLocal with the local tree of the model and
 // npeers connected peers that all announce the same tree.
 func newRegWorld(npeers int, ev *regEvents, base int) *regWorld {
-	return newRegWorldTd(npeers, ev, base, false)
+	return newRegWorldTd(npeers, ev, base, false, nil, nil)
 }
 
-func newRegWorldTd(npeers int, ev *regEvents, base int, td bool) *regWorld {
-	w := &regWorld{npeers: npeers, rds: map[int]api.DeviceRemoteInterface{}, log: &regLog{}, ctr: map[int]uint64{}, alive: map[int]bool{},
+func newRegWorldTd(npeers int, ev *regEvents, base int, td bool, late, broken map[int]bool) *regWorld {
+	if late == nil {
+		late = map[int]bool{}
+	}
+	if broken == nil {
+		broken = map[int]bool{}
+	}
+	w := &regWorld{late: late, broken: broken, npeers: npeers, rds: map[int]api.DeviceRemoteInterface{}, log: &regLog{}, ctr: map[int]uint64{}, alive: map[int]bool{},
 		gone: map[int]map[string]bool{}, ev: ev, base: base}
 	l := spine.NewDeviceLocal("b", "m", "s", "c", "HEMS", model.DeviceTypeTypeEnergyManagementSystem, model.NetworkManagementFeatureSetTypeSmart)
 	e1 := spine.NewEntityLocal(l, model.EntityTypeTypeCEM, spine.NewAddressEntityType([]uint{1}), time.Second*4)
@@ -236,15 +277,18 @@ func newRegWorldTd(npeers int, ev *regEvents, base int, td bool) *regWorld {
 		w.td = newTdExt(w)
 	}
 	for p := 1; p <= npeers; p++ {
-		l.SetupRemoteDevice(regSki(p), &regW{p, w.log})
+		if broken[p] {
+			l.SetupRemoteDevice(regSki(p), nil) // "outgoing interface implementation not set": every send to this peer fails
+		} else {
+			l.SetupRemoteDevice(regSki(p), &regW{p, w.log})
+		}
 		w.rds[p] = l.RemoteDeviceForSki(regSki(p))
 		w.ctr[p] = 100
 		w.alive[p] = true
 		w.gone[p] = map[string]bool{}
-		cl := model.CmdClassifierTypeReply
-		w.inject(p, model.DatagramType{Header: model.HeaderType{AddressSource: h.FA(regDev(p), []uint{0}, 0), AddressDestination: h.FA("HEMS", []uint{0}, 0),
-			MsgCounter: util.Ptr(model.MsgCounterType(1)), MsgCounterReference: util.Ptr(model.MsgCounterType(1)), CmdClassifier: &cl},
-			Payload: model.PayloadType{Cmd: []model.CmdType{{NodeManagementDetailedDiscoveryData: regDiscovery(regDev(p), nil, regRemoteEnts)}}}})
+		if !late[p] {
+			w.discover(p)
+		}
 	}
 	w.settle()
 	w.log.take()
@@ -532,6 +576,7 @@ type regStats struct {
 	lastBop                                                               *regBop
 	lastPasses                                                            []string // the passes of the last teardown, as model ops
 	injected                                                              int
+	lastRemoved                                                           []string // entities removed by the last notification
 }
 
 // runRegHistory executes ops on a fresh world. d == nil: monitor only (probe phase).
@@ -545,11 +590,8 @@ func runRegHistoryTd(r *h.Report, d *h.Driver, ev *regEvents, base int, ops []st
 	if len(ops) == 0 {
 		return false
 	}
-	np := 2
-	if f := strings.Fields(ops[0]); len(f) == 2 && f[0] == "peers" {
-		np, _ = strconv.Atoi(f[1])
-	}
-	w := newRegWorldTd(np, ev, base, td)
+	np, late, broken := regHeader(ops[0])
+	w := newRegWorldTd(np, ev, base, td, late, broken)
 	defer w.close()
 	if w.td != nil {
 		w.td.gen = st
@@ -558,6 +600,11 @@ func runRegHistoryTd(r *h.Report, d *h.Driver, ev *regEvents, base int, ops []st
 	if d != nil {
 		if td {
 			d.Ask(fmt.Sprintf("peers %d", np))
+			for q := 1; q <= np; q++ {
+				if late[q] {
+					d.Ask(fmt.Sprintf("late %d", q))
+				}
+			}
 		} else {
 			d.Ask("reset")
 		}
@@ -586,11 +633,20 @@ func runRegHistoryTd(r *h.Report, d *h.Driver, ev *regEvents, base int, ops []st
 		atoi := func(i int) int { n, _ := strconv.Atoi(f[i]); return n }
 		requester := 0
 		switch f[0] {
-		case "sub", "unsub", "bind", "unbind", "write", "drop", "dropent", "wr", "read":
+		case "sub", "unsub", "bind", "unbind", "write", "drop", "dropent", "wr", "read", "discover", "addent", "full":
 			requester = atoi(1)
 		}
 		if requester != 0 && (requester > np || !w.alive[requester]) {
 			continue // a removed connection delivers nothing
+		}
+		if requester != 0 && w.late[requester] && f[0] != "discover" && f[0] != "drop" {
+			continue // a peer whose discovery has not completed sends nothing else
+		}
+		if requester != 0 && w.broken[requester] && (f[0] == "write" || f[0] == "wr" || f[0] == "read") {
+			continue // nothing of these is observable on a connection that cannot be written to
+		}
+		if f[0] == "discover" && !w.late[requester] || f[0] == "addent" && !w.gone[requester][f[2]] {
+			continue
 		}
 		preS, preB := w.snapshot()
 		w.out = nil
@@ -607,6 +663,14 @@ func runRegHistoryTd(r *h.Report, d *h.Driver, ev *regEvents, base int, ops []st
 			w.settle()
 			postS, postB := w.snapshot()
 			pair := regPair(p, ce, cf, se, sf)
+			if w.broken[p] {
+				// the answer cannot be written to this peer: the effect on the registry stands in for it
+				grew := len(postS) > len(preS)
+				if f[0] == "bind" {
+					grew = len(postB) > len(preB)
+				}
+				impl = map[bool]string{true: "ok", false: "err"}[grew]
+			}
 			reqOk := w.specRequestOk(p, ce, cf, se, sf, ty)
 			if f[0] == "sub" {
 				exp := reqOk && !regHas(preS, pair)
@@ -668,6 +732,13 @@ func runRegHistoryTd(r *h.Report, d *h.Driver, ev *regEvents, base int, ops []st
 			impl = w.call(p, regCallCmd(f, sd, cdSub))
 			w.settle()
 			postS, postB := w.snapshot()
+			if w.broken[p] {
+				shrank := len(postS) < len(preS)
+				if f[0] == "unbind" {
+					shrank = len(postB) < len(preB)
+				}
+				impl = map[bool]string{true: "ok", false: "err"}[shrank]
+			}
 			post, otherPre, otherPost := postS, preB, postB
 			if f[0] == "unbind" {
 				post, otherPre, otherPost = postB, preS, postS
@@ -708,10 +779,34 @@ func runRegHistoryTd(r *h.Report, d *h.Driver, ev *regEvents, base int, ops []st
 			st.delAll++
 			st.delOk += h.B2i(exists)
 			kind = f[0] + ":" + impl
-		case "drop", "dropent":
+		case "drop", "dropent", "full":
 			p := atoi(1)
-			ent := ""
+			// the entities the notification announces as removed, in its order: "dropent p a,b,c" lists them (entity 0,
+			// the device information entity, may be among them: it is kept, every other one goes with the full cascade);
+			// "full p a,b" is a full notification that announces only a,b: every other known entity counts as removed
+			var listed, removedEnts []string
+			removedSet := map[string]bool{}
+			if f[0] == "dropent" {
+				listed = strings.Split(f[2], ",")
+			} else if f[0] == "full" {
+				keep := map[string]bool{}
+				for _, e := range strings.Split(f[2], ",") {
+					keep[e] = true
+				}
+				for _, e := range regRemoteEnts {
+					if !w.gone[p][e] && !keep[e] {
+						listed = append(listed, e)
+					}
+				}
+			}
+			for _, e := range listed {
+				if e != "0" && regFind(regRemoteFeats, e, 1) != nil && !w.gone[p][e] && !removedSet[e] {
+					removedEnts = append(removedEnts, e)
+					removedSet[e] = true
+				}
+			}
 			existed := true
+			st.lastRemoved = removedEnts
 			var bop *regBop
 			if inj != nil {
 				bop = w.prepareB(inj)
@@ -730,8 +825,10 @@ func runRegHistoryTd(r *h.Report, d *h.Driver, ev *regEvents, base int, ops []st
 					}
 				}
 			} else {
-				anyPeerEnts[f[2]] = true
-				passEnts = []string{f[2]}
+				for _, e := range removedEnts {
+					anyPeerEnts[e] = true
+				}
+				passEnts = removedEnts
 			}
 			st.lastPasses = nil
 			for _, e := range passEnts {
@@ -744,16 +841,28 @@ func runRegHistoryTd(r *h.Report, d *h.Driver, ev *regEvents, base int, ops []st
 				w.l.RemoveRemoteDeviceConnection(regSki(p))
 				w.alive[p] = false
 			} else {
-				ent = f[2]
-				existed = regFind(regRemoteFeats, ent, 1) != nil && !w.gone[p][ent]
 				w.ctr[p]++
 				nc := model.CmdClassifierTypeNotify
-				removed := model.NetworkManagementStateChangeTypeRemoved
+				cmd := model.CmdType{Function: util.Ptr(model.FunctionTypeNodeManagementDetailedDiscoveryData)}
+				if f[0] == "dropent" {
+					removed := model.NetworkManagementStateChangeTypeRemoved
+					cmd.Filter = []model.FilterType{*model.NewFilterTypePartial()}
+					cmd.NodeManagementDetailedDiscoveryData = regDiscovery(regDev(p), &removed, listed)
+				} else {
+					var keep []string
+					for _, e := range regRemoteEnts {
+						if !w.gone[p][e] && !removedSet[e] && !(e == "0" && len(listed) > 0 && listed[0] == "0") {
+							keep = append(keep, e)
+						}
+					}
+					cmd.NodeManagementDetailedDiscoveryData = regDiscovery(regDev(p), nil, keep)
+				}
 				w.inject(p, model.DatagramType{Header: model.HeaderType{AddressSource: h.FA(regDev(p), []uint{0}, 0), AddressDestination: h.FA("HEMS", []uint{0}, 0),
-					MsgCounter: util.Ptr(model.MsgCounterType(w.ctr[p])), CmdClassifier: &nc}, Payload: model.PayloadType{Cmd: []model.CmdType{{
-					Function: util.Ptr(model.FunctionTypeNodeManagementDetailedDiscoveryData), Filter: []model.FilterType{*model.NewFilterTypePartial()},
-					NodeManagementDetailedDiscoveryData: regDiscovery(regDev(p), &removed, []string{ent})}}}})
-				w.gone[p][ent] = true
+					MsgCounter: util.Ptr(model.MsgCounterType(w.ctr[p])), CmdClassifier: &nc}, Payload: model.PayloadType{Cmd: []model.CmdType{cmd}}})
+				for _, e := range removedEnts {
+					w.gone[p][e] = true
+				}
+				existed = len(removedEnts) > 0
 			}
 			seen, fired := regCore.disarm()
 			st.lastEvents = seen
@@ -773,7 +882,7 @@ func runRegHistoryTd(r *h.Report, d *h.Driver, ev *regEvents, base int, ops []st
 			postS, postB := w.snapshot()
 			evs := w.ev.take()
 			// SPEC (C10): all and only the entries that refer to the removed device / entity disappear
-			refers := func(e regEntry) bool { return e.peer == p && (f[0] == "drop" || e.ce == ent) }
+			refers := func(e regEntry) bool { return e.peer == p && (f[0] == "drop" || removedSet[e.ce]) }
 			remS, remB := regDiff(preS, postS), regDiff(preB, postB)
 			addS, addB := regDiff(postS, preS), regDiff(postB, preB)
 			nRemS, nRemB := len(remS), len(remB)
@@ -814,14 +923,15 @@ func runRegHistoryTd(r *h.Report, d *h.Driver, ev *regEvents, base int, ops []st
 			if evs["sub-"] != nRemS || evs["bind-"] != nRemB {
 				r.SpecFail("C10/teardown-events", done, fmt.Sprintf("%s removed %d subscriptions and %d bindings, events: %v", op, nRemS, nRemB, evs))
 			}
-			if f[0] == "drop" && evs["device-"] != 1 || f[0] == "dropent" && evs["entity-"] != h.B2i(existed) {
+			if f[0] == "drop" && evs["device-"] != 1 || f[0] != "drop" && evs["entity-"] != len(removedEnts) {
 				r.SpecFail("C10/teardown-events", done, fmt.Sprintf("%s: device/entity removal events: %v", op, evs))
 			}
 			// the device can no longer be resolved; every other peer still can
 			for q := 1; q <= np; q++ {
 				bySki := w.l.RemoteDeviceForSki(regSki(q)) != nil
 				byAddr := w.l.RemoteDeviceForAddress(model.AddressDeviceType(regDev(q))) != nil
-				if w.alive[q] != bySki || w.alive[q] != byAddr {
+				// (the device address of a peer is known from its discovery reply on)
+				if w.alive[q] != bySki || (w.alive[q] && !w.late[q]) != byAddr {
 					key := "C10/device-still-resolvable"
 					if w.alive[q] {
 						key = "C10/other-device-unresolvable"
@@ -831,11 +941,54 @@ func runRegHistoryTd(r *h.Report, d *h.Driver, ev *regEvents, base int, ops []st
 			}
 			regJudgeInvariants(r, done, postS, postB)
 			if w.td != nil {
-				w.td.afterTeardown(r, done, op, p, ent, existed)
+				w.td.afterTeardown(r, done, op, p, f[0] == "drop", removedEnts)
 			}
 			st.faults++
 			if kind == "" {
 				kind = f[0]
+			}
+		case "discover":
+			p := atoi(1)
+			w.discover(p)
+			w.settle()
+			w.out = append(w.out, w.log.take()...)
+			impl, kind = "done", "discover"
+			// SPEC (C10, "continues to be served"): once a peer's discovery reply has arrived the stack subscribes to its
+			// node management and asks for its use cases — also when other connections were removed in the meantime
+			subCall, ucRead := false, false
+			for _, o := range w.out {
+				if o.peer != p || len(o.d.Payload.Cmd) == 0 || o.d.Header.CmdClassifier == nil {
+					continue
+				}
+				c0 := o.d.Payload.Cmd[0]
+				subCall = subCall || c0.NodeManagementSubscriptionRequestCall != nil
+				ucRead = ucRead || (c0.NodeManagementUseCaseData != nil && *o.d.Header.CmdClassifier == model.CmdClassifierTypeRead)
+			}
+			if !w.broken[p] && (!subCall || !ucRead) {
+				r.SpecFail("C10/peer-not-served-after-its-discovery", done, fmt.Sprintf("after the discovery reply of peer %d: node-management subscription call sent: %v, use-case read sent: %v", p, subCall, ucRead))
+			}
+			if w.rds[p].FeatureByAddress(h.FA(regDev(p), []uint{1}, 1)) == nil {
+				r.SpecFail("C10/peer-not-served-after-its-discovery", done, fmt.Sprintf("after the discovery reply of peer %d its announced features are unknown", p))
+			}
+			w.ev.take()
+		case "addent":
+			p, e := atoi(1), f[2]
+			w.ctr[p]++
+			nc := model.CmdClassifierTypeNotify
+			added := model.NetworkManagementStateChangeTypeAdded
+			w.inject(p, model.DatagramType{Header: model.HeaderType{AddressSource: h.FA(regDev(p), []uint{0}, 0), AddressDestination: h.FA("HEMS", []uint{0}, 0),
+				MsgCounter: util.Ptr(model.MsgCounterType(w.ctr[p])), CmdClassifier: &nc}, Payload: model.PayloadType{Cmd: []model.CmdType{{
+				Function: util.Ptr(model.FunctionTypeNodeManagementDetailedDiscoveryData), Filter: []model.FilterType{*model.NewFilterTypePartial()},
+				NodeManagementDetailedDiscoveryData: regDiscovery(regDev(p), &added, []string{e})}}}})
+			w.gone[p][e] = false
+			w.settle()
+			impl, kind = "done", "addent"
+			evs := w.ev.take()
+			if evs["entity+"] != 1 || w.rds[p].FeatureByAddress(h.FA(regDev(p), regParseEnt(e), 1)) == nil {
+				r.SpecFail("C10/entity-added-not-processed", done, fmt.Sprintf("%s: entity-added events %d, feature %s/1 known: %v", op, evs["entity+"], e, w.rds[p].FeatureByAddress(h.FA(regDev(p), regParseEnt(e), 1)) != nil))
+			}
+			if postS, postB := w.snapshot(); len(regDiff(preS, postS))+len(regDiff(postS, preS))+len(regDiff(preB, postB))+len(regDiff(postB, preB)) > 0 {
+				r.SpecFail("C10/registry-changed-by-addent", done, op)
 			}
 		case "subs", "binds":
 			q := atoi(1)
@@ -849,7 +1002,7 @@ func runRegHistoryTd(r *h.Report, d *h.Driver, ev *regEvents, base int, ops []st
 				api_ = w.bindsOf(q)
 			}
 			impl = regShow(api_)
-			if w.alive[q] {
+			if w.alive[q] && !w.broken[q] && !w.late[q] {
 				// the list as reported to the peer itself over the wire
 				var c model.CmdType
 				if f[0] == "subs" {
@@ -949,7 +1102,9 @@ func runRegHistoryTd(r *h.Report, d *h.Driver, ev *regEvents, base int, ops []st
 			var want []string
 			if accepted {
 				for _, e := range preS {
-					if e.se == se && e.sf == sf {
+					// a subscriber whose connection cannot be written to gets nothing that could be seen; every
+					// other subscriber is still owed exactly one notification
+					if e.se == se && e.sf == sf && !w.broken[e.peer] {
 						want = append(want, fmt.Sprintf("%d:%s/%d", e.peer, e.ce, e.cf))
 					}
 				}
@@ -1000,6 +1155,19 @@ func runRegHistoryTd(r *h.Report, d *h.Driver, ev *regEvents, base int, ops []st
 			return true
 		}
 		r.Eval(kind, "")
+		if f[0] == "dropent" || f[0] == "full" {
+			// the model is told which entities the notification removes (it keeps entity 0 itself)
+			l := "0"
+			if parts := strings.Fields(tearLine); f[0] == "dropent" {
+				l = parts[2]
+			} else if len(st.lastRemoved) > 0 {
+				l = strings.Join(st.lastRemoved, ",")
+			}
+			tearLine = fmt.Sprintf("dropent %s %s", f[1], l)
+			if inj == nil {
+				op = tearLine
+			}
+		}
 		if d != nil && inj != nil {
 			st.injected++
 			if !regModelBothOrders(r, d, done, w, tearLine, st.lastBop, st.lastPasses) {
@@ -1009,6 +1177,9 @@ func runRegHistoryTd(r *h.Report, d *h.Driver, ev *regEvents, base int, ops []st
 		}
 		if d != nil {
 			want := d.Ask(op)
+			if len(w.broken) > 0 && (f[0] == "notify" || f[0] == "update" || f[0] == "write") {
+				want = regDropBroken(want, w.broken)
+			}
 			if f[0] == "subs" || f[0] == "binds" {
 				// the property fixes that ids are pairwise distinct (monitored), not their values: a repair may draw
 				// the id before or after a check. Ids are compared by order of first appearance.
@@ -1022,6 +1193,24 @@ func runRegHistoryTd(r *h.Report, d *h.Driver, ev *regEvents, base int, ops []st
 	}
 	r.Traces++
 	return false
+}
+
+// regDropBroken removes the targets "k:…" of peers with a broken send path from a model fan-out list "[a, b]"
+func regDropBroken(list string, broken map[int]bool) string {
+	if !strings.HasPrefix(list, "[") {
+		return list
+	}
+	var keep []string
+	for _, t := range strings.Split(strings.Trim(list, "[]"), ", ") {
+		if t == "" {
+			continue
+		}
+		k, _ := strconv.Atoi(t[:strings.Index(t, ":")])
+		if !broken[k] {
+			keep = append(keep, t)
+		}
+	}
+	return regList(keep)
 }
 
 // regCanonIDs renumbers the ids of a list "id:entry,id:entry" by order of first appearance in this history.
@@ -1058,6 +1247,27 @@ type regTup struct {
 var regValid = []regTup{{"1", 1, "1", 1, 1}, {"1", 1, "2", 1, 1}, {"2", 1, "1", 1, 1}, {"2", 1, "2", 1, 1}, {"1", 2, "1", 2, 2}, {"1", 3, "1", 1, 1}, {"1", 3, "1", 2, 2},
 	{"1", 3, "2", 1, 1}, {"1", 3, "2", 2, 4}, {"0", 0, "0", 0, 100}, {"1", 3, "0", 1, 3}, {"1.1", 1, "1", 1, 1}, {"1.1", 1, "2", 1, 1}}
 
+// requests that involve a special-role (node management) feature, with matching and non-matching types: the type must
+// match for a special feature as for any other (the legitimate NodeManagement -> NodeManagement pair is in regValid)
+var regSpecial = []regTup{{"0", 0, "0", 0, 4}, {"0", 0, "0", 0, 1}, {"0", 0, "0", 0, 0}, {"0", 0, "1", 1, 1}, {"0", 0, "1", 1, 100}, {"0", 0, "2", 2, 4},
+	{"1", 1, "0", 0, 1}, {"1", 1, "0", 0, 100}, {"1", 3, "0", 0, 100}, {"1", 3, "0", 0, 4}, {"0", 0, "0", 1, 3}, {"0", 0, "0", 1, 100}, {"0", 0, "0", 0, 100}}
+
+// regFaultOp: a teardown op — a drop, or a discovery notification that announces entities as removed: one entity,
+// several, the device information entity [0] among them at any position, or a full notification that omits some
+func regFaultOp(rng regRng, p int) string {
+	switch rng.Intn(10) {
+	case 0, 1, 2, 3:
+		return fmt.Sprintf("drop %d", p)
+	case 4, 5, 6:
+		return fmt.Sprintf("dropent %d %s", p, []string{"1", "1.1", "2"}[rng.Intn(3)])
+	case 7:
+		return fmt.Sprintf("dropent %d %s", p, []string{"0,1", "1,0,1.1", "0,2,1.1", "2,0", "0", "1.1,1", "0,1,1.1,2"}[rng.Intn(7)])
+	case 8:
+		return fmt.Sprintf("full %d %s", p, []string{"0,2", "0,1,1.1", "1", "2,1.1", "0,1"}[rng.Intn(5)])
+	}
+	return fmt.Sprintf("dropent %d %s", p, []string{"1,2", "1.1,2", "1,1.1"}[rng.Intn(3)])
+}
+
 // regDecorate appends address decorations to a request: most requests name the devices as a well-behaved peer does;
 // some omit the (optional) device part of the server address, some carry an unknown or another peer's device string.
 func regDecorate(rng regRng, op string, np int, clientToo bool) string {
@@ -1083,7 +1293,17 @@ func regDecorate(rng regRng, op string, np int, clientToo bool) string {
 }
 
 func genRegHistory(rng regRng, n, np int, faults bool) []string {
-	ops := []string{fmt.Sprintf("peers %d", np)}
+	head := fmt.Sprintf("peers %d", np)
+	latePeer := 0
+	switch rng.Intn(6) {
+	case 0:
+		head += fmt.Sprintf(" broken:%d", 1+rng.Intn(np)) // one peer's connection cannot be written to
+	case 1:
+		latePeer = 1 + rng.Intn(np) // one peer's discovery reply arrives somewhere in the middle
+		head += fmt.Sprintf(" late:%d", latePeer)
+	}
+	ops := []string{head}
+	discoverAt := rng.Intn(n/2 + 1)
 	type tup struct {
 		p int
 		regTup
@@ -1092,10 +1312,19 @@ func genRegHistory(rng regRng, n, np int, faults bool) []string {
 	dropped := 0
 	ents := []string{"1", "1", "1", "2", "2", "1.1", "3"}
 	for i := 0; i < n; i++ {
+		if latePeer != 0 && i == discoverAt {
+			ops = append(ops, fmt.Sprintf("discover %d", latePeer))
+		}
+		if rng.Intn(25) == 0 {
+			ops = append(ops, fmt.Sprintf("addent %d %s", 1+rng.Intn(np), []string{"1", "1.1", "2"}[rng.Intn(3)]))
+		}
 		p := 1 + rng.Intn(np)
 		t := regTup{ents[rng.Intn(len(ents))], 1 + rng.Intn(4), ents[rng.Intn(len(ents))], 1 + rng.Intn(3), []int{1, 1, 1, 2, 2, 4, 0}[rng.Intn(7)]}
 		if rng.Intn(10) < 7 {
 			t = regValid[rng.Intn(len(regValid))]
+		}
+		if rng.Intn(12) == 0 {
+			t = regSpecial[rng.Intn(len(regSpecial))]
 		}
 		if len(granted) > 0 && rng.Intn(6) == 0 {
 			// somebody asks for a pair / server feature that was asked for before (duplicates, bound features)
@@ -1135,11 +1364,10 @@ func genRegHistory(rng regRng, n, np int, faults bool) []string {
 			q, cd, g := del()
 			ops = append(ops, regDecorate(rng, fmt.Sprintf("unbind %d %d %s %d %s %d", q, cd, g.ce, g.cf, g.se, g.sf), np, false))
 		case k == 15 && faults && i > n/3 && dropped < np-1:
-			if rng.Intn(2) == 0 {
-				ops = append(ops, fmt.Sprintf("drop %d", p))
+			f := regFaultOp(rng, p)
+			ops = append(ops, f)
+			if strings.HasPrefix(f, "drop ") {
 				dropped++
-			} else {
-				ops = append(ops, fmt.Sprintf("dropent %d %s", p, []string{"1", "1.1", "2"}[rng.Intn(3)]))
 			}
 		case k < 18:
 			ops = append(ops, fmt.Sprintf("%s %d", []string{"subs", "binds"}[rng.Intn(2)], 1+rng.Intn(np)))
@@ -1245,6 +1473,19 @@ func TestRegistry(t *testing.T) {
 	// resolved one (entity and feature), so duplicates and second bindings must still be refused
 	run([]string{"peers 2", "bind 1 1 1 1 1 1", "bind 2 1 1 1 1 1 sd0", "bind 2 1 1 1 1 1 sd77", "bind 2 1 1 1 1 1 sd1", "binds 1", "binds 2", "unbind 1 0 1 1 1 1 sd0", "bind 2 1 1 1 1 1 sd0", "binds 2"})
 	run([]string{"peers 2", "sub 1 1 1 1 1 1 sd0", "sub 1 1 1 1 1 1", "sub 1 1 1 1 1 1 sd77 cd0", "sub 2 1 1 1 1 1 cd1", "subs 1", "subs 2", "notify 1 1", "unsub 1 0 1 1 1 1 sd2", "subs 1"})
+	// special-role (node management) features as client or server: the requested type must still match
+	run([]string{"peers 2", "sub 1 0 0 0 0 100", "sub 1 0 0 0 0 4", "sub 2 0 0 1 1 1", "sub 2 0 0 1 1 100", "sub 1 1 1 0 0 1", "sub 1 1 3 0 0 100", "bind 2 0 0 2 2 4", "bind 1 0 0 0 0 1", "subs 1", "subs 2", "binds 2", "notify 1 1", "notify 0 0"})
+	// one subscriber's connection cannot be written to: everybody registered after it is still notified, by every path
+	run([]string{"peers 3 broken:2", "bind 3 1 1 1 1 1", "sub 1 1 1 1 1 1", "sub 2 1 1 1 1 1", "sub 3 1 1 1 1 1", "sub 2 1.1 1 1 1 1", "sub 1 1.1 1 1 1 1", "notify 1 1", "update 1 1", "write 3 1 1 1 1", "subs 2", "unsub 2 0 1 1 1 1", "notify 1 1"})
+	run([]string{"peers 2 broken:1", "sub 1 0 0 0 0 100", "sub 2 0 0 0 0 100", "sub 1 2 1 2 1 1", "sub 2 2 1 2 1 1", "notify 0 0", "notify 2 1", "drop 1", "notify 2 1"})
+	// the device information entity [0] listed among the removed entities at any position, and full notifications that omit it
+	for _, l := range []string{"dropent 1 0,1", "dropent 1 1,0,1.1", "dropent 1 0,1,1.1,2", "full 1 0,2", "full 1 1", "full 1 2,1.1"} {
+		run([]string{"peers 2", "sub 1 1 1 1 1 1", "sub 1 1.1 1 1 1 1", "sub 1 2 1 2 1 1", "bind 1 1 1 1 1 1", "sub 2 1 1 1 1 1", "bind 2 1.1 1 2 1 1", l, "subs 1", "binds 1", "subs 2", "binds 2",
+			"notify 1 1", "notify 2 1", "sub 1 2 1 1 1 1", "sub 1 1 1 1 1 1", "addent 1 1", "sub 1 1 1 1 1 1", "subs 1"})
+	}
+	// a peer whose discovery reply arrives after another connection was removed
+	run([]string{"peers 2 late:2", "sub 1 1 1 1 1 1", "drop 1", "discover 2", "sub 2 1 1 1 1 1", "subs 2", "notify 1 1", "dropent 2 1", "addent 2 1", "sub 2 1 1 1 1 1"})
+	run([]string{"peers 3 late:2,3", "sub 1 1 1 1 1 1", "drop 1", "discover 2", "drop 2", "discover 3", "sub 3 1 1 1 1 1", "subs 3"})
 	// parent and child entities with identical feature numbers
 	run([]string{"peers 2", "sub 1 1 1 1 1 1", "sub 1 1.1 1 1 1 1", "bind 1 1.1 1 1 1 1", "sub 2 1.1 1 1 1 1", "dropent 1 1.1", "subs 1", "subs 2", "binds 1", "sub 1 1.1 1 1 1 1", "dropent 2 1", "subs 2", "notify 1 1"})
 	rng := h.Rng(8)
@@ -1259,11 +1500,7 @@ func TestRegistry(t *testing.T) {
 		np := 2 + rng.Intn(2)
 		b := genRegHistory(rng, 12+rng.Intn(28), np, false)
 		for pos := 1; pos <= len(b); pos++ {
-			p := 1 + rng.Intn(np)
-			fault := fmt.Sprintf("drop %d", p)
-			if rng.Intn(2) == 0 {
-				fault = fmt.Sprintf("dropent %d %s", p, []string{"1", "1.1", "2"}[rng.Intn(3)])
-			}
+			fault := regFaultOp(rng, 1+rng.Intn(np))
 			ops := append(append(append(append([]string{}, b[:pos]...), fault), regObserve(np)...), b[pos:]...)
 			ops = append(ops, regObserve(np)...)
 			run(ops)
